@@ -1005,6 +1005,99 @@ func genDeleteHeavy(enc *json.Encoder, r *vrng, n int) *ctlRun {
 	return c
 }
 
+// Deterministic scenario class: per-bucket insert/delete churn at constant size until the
+// overflow-bucket threshold starts a SAME-SIZE growth, clear(m) while that growth is in
+// progress (after 0..2 more writes), then a refill past the next load-factor threshold (a
+// doubling), with every key looked up along the way.  mapclear must drop the old array AND
+// reset the sameSizeGrow flag, otherwise the doubling is evacuated as a same-size move.
+func scenarioSameSizeClear(enc *json.Encoder, hint int, writesBeforeClear int, ptr bool, seed uint64) {
+	class := fmt.Sprintf("scenario-samesize-clear-h%d-w%d", hint, writesBeforeClear)
+	if ptr {
+		class += "-ptr"
+	}
+	c := newCtlRunP(enc, class, false, hint, true, false, ptr, seed)
+	v := uint64(0)
+	uniq := uint64(0)
+	set := func(low uint16) uint64 {
+		v++
+		uniq++
+		k := mkKey(7, uniq, low, false, false)
+		c.do(opSet, k, v)
+		return k
+	}
+	nb := 1 << c.h.B // buckets (hint 14 -> 4, hint 27 -> 8)
+	var kept []uint64
+	started := false
+	for round := 0; round < 4*nb && !started && !c.stop; round++ {
+		low := uint16(round % nb)
+		var mine []uint64
+		for i := 0; i < 9 && !c.stop; i++ { // the 9th colliding key needs an overflow bucket
+			mine = append(mine, set(low))
+			if c.h.flags&sameSizeGrow != 0 && c.h.oldbuckets != nil {
+				started = true
+				break
+			}
+		}
+		if started {
+			kept = append(kept, mine...)
+			break
+		}
+		kept = append(kept, mine[0])
+		for _, k := range mine[1:] { // back to constant size: the overflow bucket stays
+			c.do(opDel, k, 0)
+		}
+	}
+	c.rec.Cov["scenarioSameSizeStarted"] = 0
+	if started {
+		c.rec.Cov["scenarioSameSizeStarted"] = 1
+	}
+	for i := 0; i < writesBeforeClear && c.h.oldbuckets != nil; i++ {
+		kept = append(kept, set(uint16(nb+i)))
+	}
+	if c.h.oldbuckets != nil && c.h.flags&sameSizeGrow != 0 {
+		c.rec.Cov["scenarioClearDuringSameSize"] = 1
+	}
+	c.do(opClear, 0, 0)
+	c.do(opLen, 0, 0)
+	for _, k := range kept {
+		c.do(opGet, k, 0)
+	}
+	// refill with well-spread keys past the load-factor threshold of the current size and the next
+	var keys []uint64
+	limit := 6*2*nb + 20
+	for i := 0; i < limit && !c.stop; i++ {
+		keys = append(keys, set(uint16(i)))
+		if i%8 == 7 || c.h.oldbuckets != nil {
+			for _, k := range keys {
+				c.do(opGet, k, 0)
+			}
+			c.do(opLen, 0, 0)
+		}
+	}
+	c.do(opDrain, 0, 0)
+	for _, k := range keys {
+		c.do(opGet, k, 0)
+	}
+	for i, k := range keys {
+		if i%3 == 0 {
+			c.do(opDel, k, 0)
+		}
+	}
+	c.do(opDrain, 0, 0)
+	c.do(opLen, 0, 0)
+	c.finish()
+}
+
+func runScenarios(enc *json.Encoder) {
+	for _, hint := range []int{14, 27} {
+		for w := 0; w < 3; w++ {
+			for _, ptr := range []bool{false, true} {
+				scenarioSameSizeClear(enc, hint, w, ptr, uint64(1000+hint*10+w))
+			}
+		}
+	}
+}
+
 func TestVerif(t *testing.T) {
 	seed, _ := strconv.ParseUint(os.Getenv("VERIF_SEED"), 10, 64)
 	n, _ := strconv.Atoi(os.Getenv("VERIF_N"))
@@ -1022,6 +1115,9 @@ func TestVerif(t *testing.T) {
 		return
 	case "typed":
 		runTyped(enc, seed, n)
+		return
+	case "scenarios":
+		runScenarios(enc)
 		return
 	}
 	r := &vrng{s: seed*7919 + 17}
